@@ -281,3 +281,96 @@ def replay_h_read_col_list(defi, rep, split):
     """a real file: LIST column written by a spec-level page builder, read through ParquetFile.to_pandas"""
     from vf.pyxlift import nested_file
     return nested_file.replay_list(defi, rep, [split] if split else [], OPT_LIST, OPT_ELEM, MAXD, dremel(defi, rep))
+
+
+# ------------------------------------------------------------------------------------------------------
+# Dictionary fallback inside a chunk: a dictionary page, then data pages that are dictionary-encoded or PLAIN
+# (a writer falls back to PLAIN when the dictionary grows too large).  read_col keeps the dictionary for the whole
+# chunk and tells the assembler per page whether the values are indices.
+ENCS = [x for x in os.environ.get("VERIF_ENCS", "d,p").split(",") if x]
+
+
+class _Dic:
+    def __init__(self, labels):
+        self.labels = labels
+
+    def __getitem__(self, val):
+        return [self.labels[i] for i in val]
+
+
+class _PHm:
+    def __init__(self, n, kind):
+        if kind == "dict-page":
+            self.type = parquet_thrift.PageType.DICTIONARY_PAGE
+            return
+        self.type = parquet_thrift.PageType.DATA_PAGE
+        enc = parquet_thrift.Encoding.RLE_DICTIONARY if kind == "d" else parquet_thrift.Encoding.PLAIN
+        self.data_page_header = parquet_thrift.DataPageHeader(num_values=n, encoding=enc)
+
+
+class _InIOm(_InIO):
+    def __init__(self, pages):
+        _InIO.__init__(self, pages)
+        self.dict_done = False
+
+
+class _EncNSm(_EncNS):
+    @staticmethod
+    def NumpyIO(buf):
+        return _InIOm(PAGES[0])
+
+
+class _TOm:
+    @staticmethod
+    def from_buffer(infile, name):
+        if not infile.dict_done:
+            return _PHm(0, "dict-page")
+        d, r, v = infile.pages[infile.k]
+        return _PHm(len(d), ENCS[infile.k])
+
+
+def _s_read_dictionary_page_m(infile, schema_helper, ph, cmd, utf=False):
+    infile.dict_done = True
+    return _Dic([100 + j for j in range(32)])
+
+
+def run_read_col_mixed(defi, rep, split):
+    nrows = sum(1 for r in rep if r == 0)
+    assign = _Assign([None] * nrows)
+    pages, vi = [], 0
+    for k, (a, b) in enumerate(((0, split), (split, len(rep)))):
+        d, r = defi[a:b], rep[a:b]
+        nv = sum(1 for x in d if x == MAXD and x >= THR)
+        if ENCS[k] == "d":
+            pages.append((d, r, [vi + j for j in range(nv)]))            # dictionary indices
+        else:
+            pages.append((d, r, [100 + vi + j for j in range(nv)]))      # the values themselves
+        vi += nv
+    PAGES[0] = pages
+    md = parquet_thrift.ColumnMetaData(type=2, path_in_schema=["col", "list", "element"], num_values=len(rep),
+                                       data_page_offset=4, total_compressed_size=100)
+    col = parquet_thrift.ColumnChunk(meta_data=md)
+    saved = (core.encoding, core.ThriftObject, core.read_data_page, core.read_dictionary_page, core.convert)
+    core.encoding, core.ThriftObject, core.read_data_page = _EncNSm, _TOm, _s_read_data_page
+    core.read_dictionary_page = _s_read_dictionary_page_m
+    core.convert = lambda v, se, dtype=None: v
+    try:
+        core.read_col(col, HELPER, _Raw(), assign=assign)
+    finally:
+        core.encoding, core.ThriftObject, core.read_data_page, core.read_dictionary_page, core.convert = saved
+    return assign.items
+
+
+def h_read_col_list_mixed(defi: List[int], rep: List[int], split: int) -> bool:
+    """
+    pre: len(defi) == N and len(rep) == N and 0 < split < N
+    pre: valid(defi, rep)
+    post: __return__
+    """
+    return run_read_col_mixed(defi, rep, split) == dremel(defi, rep)
+
+
+def replay_h_read_col_list_mixed(defi, rep, split):
+    from vf.pyxlift import nested_file
+    return nested_file.replay_list(defi, rep, [split], OPT_LIST, OPT_ELEM, MAXD, dremel(defi, rep), version=1,
+                                   encs=ENCS)
